@@ -4,9 +4,10 @@ from __future__ import annotations
 import ast
 import re
 
+from .. import logic
 from ..cfg import CFG
 from ..core import (AnalysisError, DefRef, NotConst, Ref, RegexConst, call_name, calls_in, dotted, enclosing_function,
-                    func_params, norm, qualname_of, walk_no_nested)
+                    func_params, norm, qualname_of, walk_no_nested, expand_aliases, single_assign_aliases)
 from ..prov import Interp, Map, Obj, S, Seq, Tup
 from ..regexlang import Lang, inclusion_counterexample, product_states
 from .. import regexlang
@@ -102,6 +103,23 @@ def check_regex(ctx, rule, construct, rx: RegexConst, method, ref_pattern, node)
     return lang
 
 
+def match_truth(e, regex_texts):
+    """A match object is never falsy: `RE.match(x) is not None` and `RE.match(x)` are the same test."""
+    from ..core import copy_ast
+
+    class T(ast.NodeTransformer):
+        def visit_Compare(self, node):
+            self.generic_visit(node)
+            if len(node.ops) == 1 and isinstance(node.comparators[0], ast.Constant) and node.comparators[0].value is None and norm(node.left) in regex_texts:
+                if isinstance(node.ops[0], ast.IsNot):
+                    return node.left
+                if isinstance(node.ops[0], ast.Is):
+                    return ast.UnaryOp(op=ast.Not(), operand=node.left)
+            return node
+
+    return T().visit(copy_ast(e))
+
+
 def all_paths_raise(cfg: CFG, stmts) -> bool:
     """Does the statement list always end in raise (no fall-through, no return)?"""
     if not stmts:
@@ -141,30 +159,52 @@ def run(ctx):
     rets = [n for n in cfg.stmt_nodes() if isinstance(n.ast, ast.Return)]
     ctx.floor("R6.2", "return statements in is_valid_field_name", len(rets), 2)
     regex_texts = {norm(call) for call, *_ in uses}
+    from .. import logic
+    from ..core import copy_ast
+
+    ial = single_assign_aliases(ivf)
+
+    class _MatchTruth(ast.NodeTransformer):
+        """A match object is never falsy: `RE.match(x) is not None` and `RE.match(x)` are the same test."""
+        def visit_Compare(self, node):
+            self.generic_visit(node)
+            if len(node.ops) == 1 and isinstance(node.comparators[0], ast.Constant) and node.comparators[0].value is None and norm(node.left) in regex_texts:
+                if isinstance(node.ops[0], ast.IsNot):
+                    return node.left
+                if isinstance(node.ops[0], ast.Is):
+                    return ast.UnaryOp(op=ast.Not(), operand=node.left)
+            return node
+
+    def prep(e):
+        return _MatchTruth().visit(expand_aliases(e, ial))
+
+    res_tests = [n for n in ast.walk(ivf) if isinstance(n, ast.Compare) and len(n.ops) == 1 and isinstance(n.ops[0], (ast.In, ast.NotIn)) and norm(n.left) == name_param]
+    reserved_text = None
+    for n in res_tests:
+        try:
+            if prog.fold(base, n.comparators[0]) == prog.fold(base, ast.parse("RESERVED_FIELDS").body[0].value):
+                reserved_text = norm(n.comparators[0])
+        except NotConst:
+            pass
+    general = f"(not {name_param}.startswith('_') and ({' or '.join(sorted(regex_texts)) or 'False'}))"
+    goal = logic.parse(f"{name_param} in {reserved_text} or {general}" if reserved_text else general)
+    if reserved_text:
+        rf = prog.fold(base, ast.parse("RESERVED_FIELDS").body[0].value)
+        bad = [k for k in rf if not re.fullmatch(REF_FIELD, k)]
+        ctx.check(not bad, "R6.2", "is_valid_field_name:return-True@reserved", f"reserved field names {bad} are not identifiers", ivf,
+                  "reserved-name path returns True only for the constant reserved names, all identifiers")
     for rn in rets:
         val = rn.ast.value
-        if isinstance(val, ast.Constant) and val.value is False:
+        if val is None or (isinstance(val, ast.Constant) and not val.value):
             continue
+        prem = [(prep(e0), p0) for e0, p0 in logic.facts_as_premises(cfg.facts_at(rn.id))]
         if not (isinstance(val, ast.Constant) and val.value is True):
-            raise AnalysisError(f"R6.2: is_valid_field_name returns a non-literal ({norm(val)}) - idiom not modelled")
-        facts = cfg.facts_at(rn.id)
-        ftexts = {(t, p) for t, p, _ in facts}
-        reserved_ok = any(p and t.startswith(f"{name_param} in ") and "RESERVED" in t.upper() for t, p in ftexts)
-        underscore_ok = any((not p) and t.replace('"', "'") == f"{name_param}.startswith('_')" for t, p in ftexts)
-        regex_ok = any(p and t in regex_texts for t, p in ftexts)
-        construct = f"is_valid_field_name:return-True@{'reserved' if reserved_ok else 'general'}"
-        if reserved_ok:
-            # names from RESERVED_FIELDS are constants; they must themselves be identifiers
-            rf = prog.fold(base, ast.parse("RESERVED_FIELDS").body[0].value)
-            bad = [k for k in rf if not re.fullmatch(REF_FIELD, k)]
-            ctx.check(not bad, "R6.2", construct, f"reserved field names {bad} are not identifiers", rn.ast,
-                      "reserved-name path returns True only for the constant reserved names, all identifiers")
-            continue
-        ctx.check(underscore_ok and regex_ok, "R6.2", construct,
-                  "a path returns True without having passed " +
-                  ("the leading-underscore rejection " if not underscore_ok else "") +
-                  ("the regex test" if not regex_ok else ""), rn.ast,
-                  "guards on every path: not name.startswith('_') and regex match", key="R6.2:is_valid_field_name:return-True-unguarded")
+            prem.append((prep(val), True))
+        ok = logic.implies(prem, goal)
+        construct = f"is_valid_field_name:return@{norm(val)[:40]}"
+        ctx.check(ok, "R6.2", construct,
+                  "a path returns a true value for a name that is not reserved without having passed the leading-underscore rejection and the regex test", rn.ast,
+                  "true result implies: reserved, or (not name.startswith('_') and regex match)", key="R6.2:is_valid_field_name:return-True-unguarded")
 
     # ------------------------------------------------------------------ R6.3 provenance of the exec'd source
     ctx.rule("R6.3", "every source of the text passed to exec() in _generate_record_class is a literal, a validated field "
@@ -178,52 +218,106 @@ def run(ctx):
     exec_calls = [c for c in calls_in(gen) if call_name(c) in ("exec", "eval")]
     ctx.floor("R6.3", "exec/eval calls in _generate_record_class", len(exec_calls), 1)
 
-    # which tuple positions of `fields` elements are validated, and does that loop dominate exec without early exit?
+    # which tuple positions of `fields` elements are validated?  A loop over the fields parameter validates position k when NO
+    # path from the loop header through the body back to the header, or out of the loop other than by raising, avoids an
+    # edge on which is_valid_field_name(<element k>) is known to be true (with check_reserved left on).
     validated_pos = set()
     val_loops = []
+    gal = single_assign_aliases(gen)
+
+    def _in(node_ast, container) -> bool:
+        q = node_ast
+        while q is not None:
+            if q is container:
+                return True
+            q = getattr(q, "_parent", None)
+        return False
+
     for st in walk_no_nested(gen):
-        if isinstance(st, ast.For) and dotted(st.iter) == p_fields and isinstance(st.target, (ast.Tuple, ast.List)):
-            tnames = [dotted(t) for t in st.target.elts]
-            for sub in st.body:
-                if isinstance(sub, ast.If):
-                    test = sub.test
-                    if isinstance(test, ast.UnaryOp) and isinstance(test.op, ast.Not) and isinstance(test.operand, ast.Call):
-                        c = test.operand
-                        r = prog.resolve_expr(base, c.func)
-                        if isinstance(r, DefRef) and r.node is ivf and c.args and dotted(c.args[0]) in tnames:
-                            # check_reserved must not be switched off
-                            kw = {k.arg: k.value for k in c.keywords}
-                            cr = kw.get("check_reserved", c.args[1] if len(c.args) > 1 else None)
-                            cr_ok = cr is None or (isinstance(cr, ast.Constant) and cr.value is True)
-                            if all_paths_raise(gcfg, sub.body) and cr_ok:
-                                # nothing before the check in the loop body may skip it, and no break anywhere in the loop
-                                idx = st.body.index(sub)
-                                early = [x for s0 in st.body[:idx] for x in ast.walk(s0) if isinstance(x, (ast.Continue, ast.Break, ast.Return))]
-                                brk = [x for s0 in st.body for x in walk_no_nested(s0) if isinstance(x, (ast.Break, ast.Return))]
-                                if not early and not brk:
-                                    validated_pos.add(tnames.index(dotted(c.args[0])))
-                                    val_loops.append(st)
-                                else:
-                                    ctx.fail("R6.3", "_generate_record_class:validation-loop",
-                                             "the loop that validates field names can be left early (break/return/continue before the "
-                                             "check), so later fields reach the template unvalidated", st,
-                                             key="R6.3:_generate_record_class:validation-loop-early-exit")
+        if not (isinstance(st, ast.For) and dotted(expand_aliases(st.iter, gal)) == p_fields):
+            continue
+        # element positions held by names inside this loop
+        pos_of = {}
+        if isinstance(st.target, (ast.Tuple, ast.List)):
+            for k, t in enumerate(st.target.elts):
+                if isinstance(t, ast.Name):
+                    pos_of[t.id] = k
+        elif isinstance(st.target, ast.Name):
+            for a in ast.walk(st):
+                if isinstance(a, ast.Assign) and isinstance(a.value, ast.Name) and a.value.id == st.target.id and isinstance(a.targets[0], (ast.Tuple, ast.List)):
+                    for k, t in enumerate(a.targets[0].elts):
+                        if isinstance(t, ast.Name):
+                            pos_of[t.id] = k
+                if isinstance(a, ast.Assign) and isinstance(a.value, ast.Subscript) and isinstance(a.value.value, ast.Name) and a.value.value.id == st.target.id \
+                        and isinstance(a.value.slice, ast.Constant) and isinstance(a.value.slice.value, int) and isinstance(a.targets[0], ast.Name):
+                    pos_of[a.targets[0].id] = a.value.slice.value
+        vcalls = []
+        for c in [x for x in ast.walk(st) if isinstance(x, ast.Call)]:
+            r = prog.resolve_expr(base, c.func)
+            if isinstance(r, DefRef) and r.node is ivf and c.args and isinstance(c.args[0], ast.Name) and c.args[0].id in pos_of:
+                kw = {k.arg: k.value for k in c.keywords}
+                cr = kw.get("check_reserved", c.args[1] if len(c.args) > 1 else None)
+                if cr is None or (isinstance(cr, ast.Constant) and cr.value is True):
+                    vcalls.append(c)
+        if not vcalls:
+            continue
+        header = gcfg.node_of(st)
+        for k in sorted({pos_of[c.args[0].id] for c in vcalls}):
+            texts = {norm(c) for c in vcalls if pos_of[c.args[0].id] == k}
+
+            def blocked(u, v, cond, texts=texts):
+                if cond is None:
+                    return False
+                return any(logic.implies([(cond[0], cond[1])], logic.parse(t)) for t in texts)
+
+            # start inside the body: successors of the header that belong to the loop body
+            starts = [v for v, _ in gcfg.succ[header.id] if gcfg.nodes[v].ast is not None and any(_in(gcfg.nodes[v].ast, b) for b in st.body)]
+            escaped = []
+            for s0 in starts:
+                for nid in gcfg.reachable_avoiding_edges(s0, blocked):
+                    nd = gcfg.nodes[nid]
+                    if nid == header.id:
+                        escaped.append("the next iteration")
+                    elif nid == gcfg.raise_exit:
+                        continue
+                    elif nd.ast is None or not _in(nd.ast, st):
+                        escaped.append("the code after the loop")
+            # ... and the loop is left only by exhausting the fields (or raising): a break/return after a successful check skips the rest
+            for s0 in starts:
+                for nid in gcfg.reachable_avoiding_edges(s0, lambda u, v, cond, h=header.id: v == h):
+                    nd = gcfg.nodes[nid]
+                    if nid != gcfg.raise_exit and (nd.ast is None or not _in(nd.ast, st)):
+                        escaped.append("the code after the loop (leaving the remaining fields unvisited)")
+            if not starts:
+                continue
+            if escaped:
+                ctx.fail("R6.3", "_generate_record_class:validation-loop",
+                         f"the loop that validates field names can reach {sorted(set(escaped))[0]} without the check having succeeded (break/return/continue before the "
+                         "check), so later fields reach the template unvalidated", st,
+                         key="R6.3:_generate_record_class:validation-loop-early-exit")
+            else:
+                validated_pos.add(k)
+                val_loops.append(st)
     ctx.floor("R6.3", "field-name validation loops over the fields parameter", len(val_loops) + sum(
         1 for v in ctx.violations if v["key"] == "R6.3:_generate_record_class:validation-loop-early-exit"), 1)
 
-    # record-name validation: `if not RE.match(name): raise`
+    # record-name validation: no path from entry to exec avoids an edge on which the type-name regex is known to match the parameter
     name_uses = [u for u in regex_uses(ctx, gen) if u[3] is not None and dotted(u[3]) == p_name]
     ctx.floor("R6.1", "regex tests on the record type name", len(name_uses), 1)
     name_val_nodes = []
+    name_texts = {norm(call) for call, *_ in name_uses}
     for call, rx, method, arg in name_uses:
         check_regex(ctx, "R6.1", "_generate_record_class:type-name-pattern", rx, method, REF_TYPE, call)
-        st = call
-        while st is not None and not isinstance(st, ast.If):
-            st = getattr(st, "_parent", None)
-        if st is not None and isinstance(st.test, ast.UnaryOp) and isinstance(st.test.op, ast.Not) and all_paths_raise(gcfg, st.body):
-            name_val_nodes.append(gcfg.node_of(st))
-        else:
-            raise AnalysisError("R6.3: the record-name regex test is not of the form `if not RE.match(name): raise` - idiom not modelled")
+        nd = gcfg.header_node_for_expr(call) or gcfg.node_of(call)
+        name_val_nodes.append(nd)
+
+    def name_blocked(u, v, cond):
+        if cond is None:
+            return False
+        e = match_truth(cond[0], name_texts)
+        return any(logic.implies([(e, cond[1])], logic.parse(t)) for t in name_texts)
+
+    unvalidated_reach = gcfg.reachable_avoiding_edges(gcfg.entry, name_blocked)
 
     interp = Interp(prog, gen, {p_name: S({"recname"}), p_fields: Seq(Tup([S({"fields[0]"}), S({"fields[1]"})]))})
     interp.watch = {"exec", "eval"}
@@ -252,7 +346,7 @@ def run(ctx):
                 ctx.check(dom, "R6.3", construct, "the validation loop does not dominate exec", ec,
                           f"validated by is_valid_field_name in a loop that dominates exec (positions {sorted(validated_pos)})")
             elif lab == "recname":
-                dom = bool(name_val_nodes) and all(gcfg.dominates(n.id, enode.id) for n in name_val_nodes)
+                dom = bool(name_val_nodes) and enode.id not in unvalidated_reach
                 # the value that was validated must be the parameter itself: no assignment to `name` before the test
                 pre_assign = False
                 for n in name_val_nodes:
@@ -406,8 +500,8 @@ def run(ctx):
     for m in prog.modules.values():
         for c in calls_in(m.tree, nested=True):
             cn = call_name(c)
-            if cn is None:
-                continue
+            if cn is None or prog.in_transparent_helper(c):
+                continue  # (a fully inlined helper is analysed, and counted, inside its callers)
             r = prog.resolve_expr(m, c.func)
             full = r.name if isinstance(r, Ref) else cn
             short = full.replace("builtins.", "")
